@@ -95,6 +95,10 @@ class Composition(object):
         else:
             return self.add_note(value)
 
+    def __eq__(self, other):
+        """Enable the '==' operator for Compositions."""
+        return self.tracks == other.tracks
+
     def __getitem__(self, index):
         """Enable the '[]' notation."""
         return self.tracks[index]
